@@ -104,10 +104,9 @@ func runImpl(c *Case) [][]string {
 }
 
 var modelBin = "/verif/build/ocaml/modelrun"
-var modelIndex = "flat"
 
 // runModel executes cases on the extracted Coq model (one process for all cases).
-func runModel(cases []*Case) ([][][]string, error) {
+func runModel(cases []*Case, modelIndex string) ([][][]string, error) {
 	var in bytes.Buffer
 	for ci, c := range cases {
 		fmt.Fprintf(&in, "reset\n")
@@ -242,10 +241,13 @@ func clipAll(l []string) []string {
 }
 
 // checkModel compares implementation and model step by step.
-func checkModel(c *Case, impl, model [][]string) *Finding {
+func checkModel(c *Case, impl, model [][]string, index string) *Finding {
 	for i := range c.Steps {
+		if index == "flat" && c.Steps[i].Cmd == "dumpindex" {
+			continue // the bucket layout is not a notion of the flat reference index
+		}
 		if !eqLines(impl[i], model[i]) {
-			return &Finding{Kind: "model", Case: c.Name, Step: i, Cmd: clip(c.Steps[i].Cmd), Impl: clipAll(impl[i]), Model: clipAll(model[i]), Program: cmdsOf(c)}
+			return &Finding{Kind: "model:" + index, Case: c.Name, Step: i, Cmd: clip(c.Steps[i].Cmd), Impl: clipAll(impl[i]), Model: clipAll(model[i]), Program: cmdsOf(c)}
 		}
 	}
 	return nil
@@ -255,7 +257,7 @@ func checkModel(c *Case, impl, model [][]string) *Finding {
 // at a time from the end, then from the start). Oracle expectations are dropped for shrunk
 // programs unless the generator supplied a re-deriver, so spec findings are shrunk by re-checking
 // impl against model only when kind == "model".
-func shrinkModelFinding(c *Case, f *Finding) *Finding {
+func shrinkModelFinding(c *Case, f *Finding, index string) *Finding {
 	cur := c
 	best := f
 	budget := 300
@@ -266,11 +268,11 @@ func shrinkModelFinding(c *Case, f *Finding) *Finding {
 		budget--
 		cand := &Case{Name: c.Name + "/shrunk", Steps: steps}
 		impl := runImpl(cand)
-		model, err := runModel([]*Case{cand})
+		model, err := runModel([]*Case{cand}, index)
 		if err != nil {
 			return false
 		}
-		if nf := checkModel(cand, impl, model[0]); nf != nil {
+		if nf := checkModel(cand, impl, model[0], index); nf != nil {
 			cur, best = cand, nf
 			return true
 		}
@@ -333,13 +335,15 @@ func (r *Result) sample(c *Case, max int) {
 
 // runCases runs all cases on both sides and records findings.
 func runCases(r *Result, cases []*Case, impls [][][]string, withModel bool) {
-	var models [][][]string
+	models := map[string][][][]string{}
 	if withModel {
-		var err error
-		models, err = runModel(cases)
-		if err != nil {
-			r.Findings = append(r.Findings, &Finding{Kind: "model", Case: "driver", Impl: []string{err.Error()}})
-			withModel = false
+		for _, index := range []string{"flat", "chain"} {
+			m, err := runModel(cases, index)
+			if err != nil {
+				r.Findings = append(r.Findings, &Finding{Kind: "model:" + index, Case: "driver", Impl: []string{err.Error()}})
+				withModel = false
+			}
+			models[index] = m
 		}
 	}
 	seen := map[string]bool{}
@@ -361,8 +365,11 @@ func runCases(r *Result, cases []*Case, impls [][][]string, withModel bool) {
 		}
 		if withModel {
 			r.ModelCompared += len(c.Steps)
-			if f := checkModel(c, impls[i], models[i]); f != nil {
-				r.Findings = append(r.Findings, shrinkModelFinding(c, f))
+			for _, index := range []string{"flat", "chain"} {
+				if f := checkModel(c, impls[i], models[index][i], index); f != nil {
+					r.Findings = append(r.Findings, shrinkModelFinding(c, f, index))
+					break
+				}
 			}
 		}
 	}
